@@ -1435,3 +1435,33 @@ pub fn close_under_congestion_native(queued: bool) -> u32 {
     assert!(!conn.close, "the packet that was sent is not the closing packet");
     1 + queued as u32
 }
+
+/// Native replay body for the E2 query `e2_first_packet_close_gets_drain_timer` (C08), and demonstration for
+/// finding 15: the connection-creating Initial of a server connection carries a CONNECTION_CLOSE frame (a
+/// client that gives up at once).  The connection is closed by its peer - it must get its drain timer, so
+/// that it becomes drained within three probe timeouts and does not sit there until the idle timeout.
+pub fn first_packet_close_native(_x: u8) -> u32 {
+    let mut conn = mk_conn(true, false);
+    conn.spaces[SpaceId::Initial].crypto = Some(nullcrypto::tagged_keys(0));
+    let now = crate::verif::mk_instant(51, 0).unwrap();
+    let remote = addr(1, 4433);
+    let mut hdr = vec![0xc0u8, 0, 0, 0, 1, 8, 1, 1, 1, 1, 1, 1, 1, 1, 8, 3, 3, 3, 3, 3, 3, 3, 3, 0];
+    // CONNECTION_CLOSE (transport): error code 0, frame type 0, empty reason; then PADDING (the stand-in AEAD accepts a payload ending in 0)
+    let mut payload = vec![0x1cu8, 0, 0, 0];
+    payload.extend_from_slice(&[0u8; 36]);
+    hdr.extend_from_slice(&[0x40, (1 + payload.len()) as u8]);
+    hdr.push(0);
+    let first = InitialPacket {
+        header: InitialHeader { dst_cid: ConnectionId::new(&[1; 8]), src_cid: ConnectionId::new(&[3; 8]), token: Bytes::new(), number: PacketNumber::U8(0), version: 1 },
+        header_data: Bytes::copy_from_slice(&hdr),
+        payload: BytesMut::from(&payload[..]),
+    };
+    conn.handle_first_packet(now, remote, None, 0, first, None).ok().expect("first Initial accepted");
+    assert!(conn.state.is_closed() && !conn.state.is_drained(), "a CONNECTION_CLOSE in the first Initial closes the connection (Draining)");
+    let t = conn.timers.get(Timer::Close);
+    assert!(t.is_some(), "a connection closed by its first packet has no drain timer: it stays until the idle timeout");
+    // and the timer drains it
+    conn.handle_timeout(t.unwrap());
+    assert!(conn.state.is_drained(), "the drain timer did not drain the connection");
+    1
+}
